@@ -40,6 +40,7 @@ def run(ctx, chk):
     ctx_ty = common.context_type(fb)
     bcb = common.abort_broadcast(fb)
     _CTX[0] = ctx_ty
+    _FB[0] = fb
     if tmb is None or ctx_ty is None:
         chk.missing('C15.N3', 'thread manager (daemon function spawning the workers) / per-thread context type with a notifying Drop')
         return
@@ -339,8 +340,8 @@ def run(ctx, chk):
         seen_sites = set()
         for ob_, bb, t, fn in common.reachable_calls(fb, wb):
             nm = mir.callee_name(fn)
-            if fb.body(nm) is not None or (ob_.path, bb) in seen_sites:
-                continue
+            if fb.body(nm) is not None or (ob_.path, bb) in seen_sites or common.callee_bodies(fb, fn):
+                continue        # workspace code (a private trait method is judged by what its implementations call)
             seen_sites.add((ob_.path, bb))
             if nm.endswith(('Receiver::<T>::recv', 'Receiver::<T>::recv_timeout', 'Receiver::<T>::try_recv')):
                 continue        # the mailbox reads are judged per loop above
@@ -521,32 +522,62 @@ def reaches_write(fb, b, seen=None):
 
 
 _CTX = [None]
+_FB = [None]
 _MAIN = [None]
 WRITER_ID = [None]
 
 
-def context_dropped_on_all_exits(b):
-    """the by-value Context parameter is dropped on every path to `return` and to `resume`"""
-    ctx_local = None
-    for i in range(1, b.argc + 1):
-        if b.crate.tystr(b.locals[i]['ty']) == _CTX[0]:
-            ctx_local = i
+def context_dropped_on_all_exits(b, ctx_local=None, depth=0):
+    """the by-value Context parameter is dropped on every path to `return` and to `resume`; handing it by value to a
+    workspace function counts when that function in turn drops (or hands on) the parameter on all of its exits"""
+    if ctx_local is None:
+        for i in range(1, b.argc + 1):
+            if b.crate.tystr(b.locals[i]['ty']) == _CTX[0]:
+                ctx_local = i
     if ctx_local is None:
         return False, 'no by-value Context parameter'
-    drops = {i for i, blk in enumerate(b.blocks) if blk['term']['k'] == 'drop' and blk['term']['p']['l'] == ctx_local and not blk['term']['p']['proj']}
+    # the value may travel through temporaries (`_5 = move _1; call f(move _5)`)
+    holders = {ctx_local}
+    grew = True
+    while grew:
+        grew = False
+        for blk in b.blocks:
+            for st_ in blk['stmts']:
+                if st_['k'] == 'assign' and st_['r'].get('k') == 'use' and not st_['p']['proj'] and st_['p']['l'] not in holders:
+                    o = st_['r'].get('op') or st_['r'].get('x') or {}
+                    if o.get('k') == 'move' and o['p']['l'] in holders and not o['p']['proj']:
+                        holders.add(st_['p']['l'])
+                        grew = True
+    drops = {i for i, blk in enumerate(b.blocks) if blk['term']['k'] == 'drop' and blk['term']['p']['l'] in holders and not blk['term']['p']['proj']}
+    handed = []
+    if depth < 4 and _FB[0] is not None:
+        for i, blk in enumerate(b.blocks):
+            t = blk['term']
+            if t['k'] != 'call' or not t['func'].get('fn'):
+                continue
+            for k, a in enumerate(t['args']):
+                if a.get('k') == 'move' and a['p']['l'] in holders and not a['p']['proj']:
+                    nbs = common.callee_bodies(_FB[0], t['func']['fn'])
+                    if len(nbs) == 1 and k + 1 <= nbs[0].argc:
+                        ok2, why2 = context_dropped_on_all_exits(nbs[0], k + 1, depth + 1)
+                        if not ok2:
+                            return False, 'the Context is handed to %s, where: %s' % (nbs[0].path.split('::')[-1], why2)
+                        drops.add(i)
+                        handed.append(nbs[0].path.split('::')[-1])
     if not drops:
         return False, 'Context parameter _%d is never dropped (moved away or leaked)' % ctx_local
     # normal exits
-    reach = b.reachable(0, avoid=drops)
+    skip = b.flag_false_edges(drops)       # drop flags: false only once the value has been dropped / handed on
+    reach = b.reachable(0, avoid=drops, skip_edges=skip)
     bad_ret = [r for r in b.return_blocks() if r in reach]
     # unwinding exits
-    reach_u = b.reachable(0, avoid=drops, unwind=True)
+    reach_u = b.reachable(0, avoid=drops, unwind=True, skip_edges=skip)
     bad_res = [i for i in reach_u if b.blocks[i]['term']['k'] == 'resume']
     if bad_ret:
         return False, 'a path reaches return without dropping the Context (bb%s)' % bad_ret
     if bad_res:
         return False, 'an unwinding path reaches resume without dropping the Context (bb%s): a panic would not be reported' % bad_res
-    return True, 'Context _%d is dropped on every path to return and to resume (drop blocks %s)' % (ctx_local, sorted(drops))
+    return True, 'Context _%d is dropped on every path to return and to resume (drop blocks %s%s)' % (ctx_local, sorted(drops), '; handed on to %s' % handed if handed else '')
 
 
 def joined_handles(fb, b):
